@@ -4,6 +4,7 @@ import (
 	"fmt"
 	"go/token"
 	"go/types"
+	"strings"
 
 	"golang.org/x/tools/go/ssa"
 )
@@ -208,6 +209,44 @@ func runC02(c *Ctx) {
 			"arguments are (last bonded validators, provider-active validators) in that order; found ("+describe(arg(cl, 1))+", "+describe(arg(cl, 2))+")")
 	}
 	c.Check(len(sites) >= 2, "ComputeConsumerNextValSet/callers", nil, fmt.Sprintf("%d call sites (epoch and launch)", len(sites)))
+	// the same roles hold at every call of any keeper function that takes the two lists by name
+	// (both are []stakingtypes.Validator, so a swap one level further out type-checks as well)
+	nRole := 0
+	for _, callee := range c.P.ModuleFuncs("pk") {
+		if callee.Parent() != nil || isTestFile(c.P, callee) {
+			continue
+		}
+		roleIdx := map[int]string{}
+		for i, prm := range callee.Params {
+			if prm.Name() == "bondedValidators" || prm.Name() == "activeValidators" {
+				roleIdx[i] = prm.Name()
+			}
+		}
+		if len(roleIdx) != 2 {
+			continue // only functions taking both lists: that is where a swap type-checks
+		}
+		csites, _ := c.Callers(ssaFuncName(callee))
+		for _, s := range csites {
+			cl, ok := s.(ssa.CallInstruction)
+			if !ok || cl.Common().StaticCallee() != callee {
+				continue
+			}
+			if isTestFile(c.P, topFn(s.Parent())) {
+				continue
+			}
+			for i, role := range roleIdx {
+				want := POr(PCall("pk.Keeper.GetLastBondedValidators", 0, nil), PParam("bondedValidators"))
+				if role == "activeValidators" {
+					want = POr(PCall("pk.Keeper.GetLastProviderConsensusActiveValidators", 0, nil), PParam("activeValidators"))
+				}
+				nRole++
+				actual := cl.Common().Args[i]
+				c.Check(allRoots(actual, want, isEmptySliceLit), fk(topFn(s.Parent()), "list-role", shortName(ssaFuncName(callee)), role), s,
+					"parameter "+role+" of "+shortName(ssaFuncName(callee))+" receives the list of that role; found "+describe(actual))
+			}
+		}
+	}
+	c.Check(nRole >= 6, "list-role/census", nil, fmt.Sprintf("%d (call site, list parameter) pairs analysed", nRole))
 	if f := c.Fn("pk.Keeper.LaunchConsumer"); f != nil {
 		if cl := c.one(f, false, "pk.Keeper.HasActiveConsumerValidator"); cl != nil {
 			c.Check(PParam("activeValidators")(arg(cl, 2)), fk(f, "active-check-uses-active-set"), cl, "HasActiveConsumerValidator receives the active set")
@@ -282,48 +321,7 @@ func runC02(c *Ctx) {
 
 	// ---- R8 ------------------------------------------------------------------------------------
 	c.Rule("R8", "list indexes follow the stored parameters: SetConsumerPowerShapingParameters refreshes allowlist/denylist/prioritylist indexes whenever the stored list differs; each UpdateXlist first deletes the whole index of the consumer on every path and then sets one entry per address of the new list", 12)
-	if f := c.Fn("pk.Keeper.SetConsumerPowerShapingParameters"); f != nil {
-		old := PCall("pk.Keeper.GetConsumerPowerShapingParameters", 0, nil, nil, PParam("consumerId"))
-		for _, l := range []struct{ field, upd string }{{"Allowlist", "pk.Keeper.UpdateAllowlist"}, {"Denylist", "pk.Keeper.UpdateDenylist"}, {"Prioritylist", "pk.Keeper.UpdatePrioritylist"}} {
-			u := c.one(f, false, l.upd)
-			if u == nil {
-				continue
-			}
-			same := ABool("stored "+l.field+" equals new", PCall("pk.equalStringSlices", -1, nil, PField(old, l.field), PField(PParam("parameters"), l.field)))
-			c.Check(PParam("consumerId")(arg(u, 1)) && PField(PParam("parameters"), l.field)(arg(u, 2)), fk(f, "refresh-args", l.field), u, "Update"+l.field+"(consumerId, parameters."+l.field+")")
-			for _, r := range successReturns(f) {
-				c.MustPassWhen(r, []ssa.Instruction{u}, fk(f, "refresh-when-changed", l.field), F(same))
-			}
-		}
-	}
-	for _, l := range []struct{ upd, del, set string }{
-		{"pk.Keeper.UpdateAllowlist", "pk.Keeper.DeleteAllowlist", "pk.Keeper.SetAllowlist"},
-		{"pk.Keeper.UpdateDenylist", "pk.Keeper.DeleteDenylist", "pk.Keeper.SetDenylist"},
-		{"pk.Keeper.UpdatePrioritylist", "pk.Keeper.DeletePrioritylist", "pk.Keeper.SetPrioritylist"},
-	} {
-		f := c.Fn(l.upd)
-		if f == nil {
-			continue
-		}
-		d := c.one(f, false, l.del)
-		st := c.one(f, false, l.set)
-		if d == nil || st == nil {
-			continue
-		}
-		for _, r := range Returns(f) {
-			c.Check(mustPassBefore(r, d), fk(f, "index-cleared-on-every-path"), r, "every return passes "+shortName(q(l.del))+" (an empty new list clears the index)")
-		}
-		c.Check(PParam("consumerId")(arg(d, 1)) && PParam("consumerId")(arg(st, 1)), fk(f, "same-consumer"), st, "clears and sets for the consumerId parameter")
-		var listParam Pat
-		for _, p := range f.Params {
-			if _, isSlice := p.Type().Underlying().(*types.Slice); isSlice {
-				listParam = PParam(p.Name())
-			}
-		}
-		okSet := listParam != nil && inLoop(st) && PCall("pt.NewProviderConsAddress", -1, nil, PCall("sdk.ConsAddressFromBech32", 0, nil, PElemOf(listParam)))(arg(st, 2))
-		c.Check(okSet, fk(f, "one-entry-per-address"), st, "sets one index entry per address of the new list; found "+describe(arg(st, 2)))
-		c.Check(mustPassBefore(st, d), fk(f, "clear-before-set"), st, "the index is cleared before it is rebuilt")
-	}
+	checkListIndexRefresh(c, "Allowlist", "Denylist")
 
 	// ---- R6 ------------------------------------------------------------------------------------
 	c.Rule("R6", "sibling agreement of the 'first M bonded validators' selections: the provider's own set (ProviderValidatorUpdates, GetLastBondedValidatorsUtil) truncates staking's power-ordered list directly; a selection that re-orders the list under another key before truncating to M classifies tied validators differently", 3)
@@ -471,4 +469,135 @@ func sliceOfIface(v ssa.Value) ssa.Value {
 		return mi.X
 	}
 	return v
+}
+
+// elemIndexOf: v = *(&X[i]) — the IndexAddr of a slice element load.
+func elemIndexOf(v ssa.Value) *ssa.IndexAddr {
+	u, ok := strip(v).(*ssa.UnOp)
+	if !ok || u.Op != token.MUL {
+		return nil
+	}
+	ia, _ := u.X.(*ssa.IndexAddr)
+	return ia
+}
+
+// sameIndex: the two index values are the same SSA value (after conversions).
+func sameIndex(a, b ssa.Value) bool {
+	for {
+		if cv, ok := a.(*ssa.Convert); ok {
+			a = cv.X
+			continue
+		}
+		break
+	}
+	for {
+		if cv, ok := b.(*ssa.Convert); ok {
+			b = cv.X
+			continue
+		}
+		break
+	}
+	return a == b
+}
+
+// checkListIndexRefresh: the allowlist/denylist/prioritylist indexes follow the stored parameters
+// (shared by C02.R8 and C04.R2: eligibility reads the indexes, not the stored lists).
+func checkListIndexRefresh(c *Ctx, lists ...string) {
+	wantList := func(name string) bool {
+		for _, l := range lists {
+			if strings.Contains(name, l) {
+				return true
+			}
+		}
+		return false
+	}
+	if f := c.Fn("pk.Keeper.SetConsumerPowerShapingParameters"); f != nil {
+		old := PCall("pk.Keeper.GetConsumerPowerShapingParameters", 0, nil, nil, PParam("consumerId"))
+		for _, l := range []struct{ field, upd string }{{"Allowlist", "pk.Keeper.UpdateAllowlist"}, {"Denylist", "pk.Keeper.UpdateDenylist"}, {"Prioritylist", "pk.Keeper.UpdatePrioritylist"}} {
+			if !wantList(l.field) {
+				continue
+			}
+			u := c.one(f, false, l.upd)
+			if u == nil {
+				continue
+			}
+			same := ABool("stored "+l.field+" equals new", PCall("pk.equalStringSlices", -1, nil, PField(old, l.field), PField(PParam("parameters"), l.field)))
+			c.Check(PParam("consumerId")(arg(u, 1)) && PField(PParam("parameters"), l.field)(arg(u, 2)), fk(f, "refresh-args", l.field), u, "Update"+l.field+"(consumerId, parameters."+l.field+")")
+			for _, r := range successReturns(f) {
+				c.MustPassWhen(r, []ssa.Instruction{u}, fk(f, "refresh-when-changed", l.field), F(same))
+			}
+		}
+	}
+	// "differs" is positional equality: same length and the same entry at every index (an
+	// order- or multiplicity-insensitive comparison calls [A,B] and [A,A] equal and skips the refresh)
+	if f := c.Fn("pk.equalStringSlices"); f != nil {
+		pa, pb := f.Params[0], f.Params[1]
+		positional := false
+		for _, in := range allInstrs(f) {
+			b, ok := in.(*ssa.BinOp)
+			if !ok || (b.Op != token.EQL && b.Op != token.NEQ) {
+				continue
+			}
+			ix, iy := elemIndexOf(b.X), elemIndexOf(b.Y)
+			if ix == nil || iy == nil {
+				continue
+			}
+			fromA := func(ia *ssa.IndexAddr) bool { return strip(ia.X) == ssa.Value(pa) }
+			fromB := func(ia *ssa.IndexAddr) bool { return strip(ia.X) == ssa.Value(pb) }
+			if ((fromA(ix) && fromB(iy)) || (fromB(ix) && fromA(iy))) && sameIndex(ix.Index, iy.Index) {
+				positional = true
+			}
+		}
+		lib := false
+		for _, cl := range AllCalls(f, false) {
+			n := calleeName(cl)
+			if (strings.HasSuffix(n, "slices.Equal") || n == "reflect.DeepEqual") && len(callArgs(cl)) == 2 {
+				lib = true
+			}
+		}
+		c.Check(positional || lib, fk(f, "positional-equality"), f, "compares a[i] with b[i] at the same index (or delegates to slices.Equal/reflect.DeepEqual)")
+		lenCmp := false
+		for _, in := range allInstrs(f) {
+			if b, ok := in.(*ssa.BinOp); ok && (b.Op == token.EQL || b.Op == token.NEQ) {
+				lx, _ := callOf(b.X)
+				ly, _ := callOf(b.Y)
+				if lx != nil && ly != nil && isCallTo(lx, "builtin.len") && isCallTo(ly, "builtin.len") {
+					lenCmp = true
+				}
+			}
+		}
+		c.Check(lenCmp || lib, fk(f, "length-equality"), f, "compares the lengths")
+	}
+	for _, l := range []struct{ upd, del, set string }{
+		{"pk.Keeper.UpdateAllowlist", "pk.Keeper.DeleteAllowlist", "pk.Keeper.SetAllowlist"},
+		{"pk.Keeper.UpdateDenylist", "pk.Keeper.DeleteDenylist", "pk.Keeper.SetDenylist"},
+		{"pk.Keeper.UpdatePrioritylist", "pk.Keeper.DeletePrioritylist", "pk.Keeper.SetPrioritylist"},
+	} {
+		if !wantList(l.upd) {
+			continue
+		}
+		f := c.Fn(l.upd)
+		if f == nil {
+			continue
+		}
+		d := c.one(f, false, l.del)
+		st := c.one(f, false, l.set)
+		if d == nil || st == nil {
+			continue
+		}
+		for _, r := range Returns(f) {
+			c.Check(mustPassBefore(r, d), fk(f, "index-cleared-on-every-path"), r, "every return passes "+shortName(q(l.del))+" (an empty new list clears the index)")
+		}
+		c.Check(PParam("consumerId")(arg(d, 1)) && PParam("consumerId")(arg(st, 1)), fk(f, "same-consumer"), st, "clears and sets for the consumerId parameter")
+		var listParam Pat
+		for _, p := range f.Params {
+			if _, isSlice := p.Type().Underlying().(*types.Slice); isSlice {
+				listParam = PParam(p.Name())
+			}
+		}
+		okSet := listParam != nil && inLoop(st) && PCall("pt.NewProviderConsAddress", -1, nil, PCall("sdk.ConsAddressFromBech32", 0, nil, PElemOf(listParam)))(arg(st, 2))
+		c.Check(okSet, fk(f, "one-entry-per-address"), st, "sets one index entry per address of the new list; found "+describe(arg(st, 2)))
+		c.Check(mustPassBefore(st, d), fk(f, "clear-before-set"), st, "the index is cleared before it is rebuilt")
+	}
+
 }
